@@ -261,7 +261,16 @@ class C19(Check):
             init["files"][p] = sg.dumps(sg.gen_other_config(rng, dflt))
             merge_files.append(p)
         if rng.random() < 0.3:
-            init["files"][HUGE_FILE] = '{"tf_cache_max_time": 1e999}'
+            # the valid JSON literal 1e999 (-> inf), at the top level, in a
+            # list, or nested deeper (a palette of RGB triples, an object)
+            init["files"][HUGE_FILE] = rng.choice([
+                '{"tf_cache_max_time": 1e999}',
+                '{"plot_figsize": [1e999, 10]}',
+                '{"plot_seaborn_palette": [[0.12, 0.47, 0.71], '
+                '[1.0, 1e999, 0.05]]}',
+                '{"my_plot_limits": {"z": [0, -1e999]}}',
+                '{"tf_cache_max_time": 1e999}',
+            ])
             merge_files.append(HUGE_FILE)
         config = rng.choice(["crash"] * 6 + ["faultfree"] * 2 +
                             ["iofault"] * 2)
